@@ -28,12 +28,15 @@ class C05(Prop):
             cfg.p_mem = rng.choice([0.2, 0.4])
             cfg.p_launch = rng.choice([0.7, 0.9])
             cfg.max_children = 4
+            if k % 10 == 2:
+                # long activities of all three types on three streams, back to back: all three types are running at the same time somewhere
+                cfg.streams, cfg.p_mem, cfg.p_comm, cfg.kdur, cfg.kgap, cfg.p_launch = (7, 9, 13), 0.4, 0.4, (4, 9, 20), (0, 0, 0, 1), 0.9
             case = case_from_cfg(rng, cfg)
             if all(any(e.get("pid") == 0 and e.get("ph") == "X" for e in r["events"]) for r in case["ranks"]):
                 maybe_fractional(rng, case, k)
                 case["numK"] = rng.choice([1, 1, 2, 3, 10])
                 case["ratio"] = rng.choice([0.1, 0.5, 0.8, 1.0])
-                case["incMem"] = rng.random() < 0.5
+                case["incMem"] = True if k % 10 == 2 else rng.random() < 0.5
                 case["prefix"] = draw_prefix(rng)
                 if k % 4 == 3:      # the second public entry point of the aggregator: user-annotation breakdown
                     if not cfg.gpu_annotations:
